@@ -10,7 +10,7 @@ COMMON_ASSUMPTIONS = [
 ]
 
 PROPS = {}
-HOOK_COMMITS = []
+HOOK_COMMITS = ["310e2c7"]
 NOT_APPLICABLE = [
     {"property_id": "C04", "reason": "needs the operational semantics of a JavaScript engine executing soyutils.js and the generated code; no symbolic executor for JavaScript exists in this image, encoding the otto interpreter through gosym is out of reach, and a hand-written JS semantics would check the model, not the code"},
 ]
@@ -313,4 +313,22 @@ PROPS["C02"] = {
     "assumptions": ["refRender (c02Env in the harness) is an independent transcription of the Soy command semantics: a let or loop variable lives in the block that introduces it; a callee sees the passed data plus its params only"],
     "level_text": "Bounded model checking over programs: the program is chosen through solver-visible choice variables over the command grammar (an exhaustive enumeration within the size bound, driven through the symbolic executor), the data is symbolic; every program is run through the real parser and interpreter and through an independent reference interpreter.",
     "level_note": "Over programs the check enumerates; over data the solver decides. Trusted: go/ssa, gosym, z3, the reference semantics.",
+}
+
+# ---------------------------------------------------------------- C07
+PROPS["C07"] = {
+    "jobs": [
+        Job("soyhtml", "H_datarefs", "2,2,true,true", workers=16, timeout=900),
+        Job("soyhtml", "H_datarefs", "1,2,false,true", workers=16, timeout=900),
+        Job("soyhtml", "H_bothParamStyles", "0..2", workers=2),
+        Job("soyhtml", "H_datarefs", "2,3,true,true", tier="thorough", workers=16, timeout=3000),
+        Job("soyhtml", "H_datarefs", "2,2,true,false", tier="thorough", workers=16, timeout=3000),
+        Job("soyhtml", "H_datarefs", "2,2,false,false", tier="thorough", workers=16, timeout=3000),
+    ],
+    "bounds_quick": "bundles generated around binding structure: a template with params l, m and (by configuration) a / optional b, a body of at most 2 generated nodes up to nesting depth 2 among print ($a,$b,$c,$i,$ij.x), let value / let content (names a, c, ij), if, foreach, call (existing callee with optional params, callee with a required param, missing callee; data none/all/$m; param k, undeclared zz, required q; value or content param) plus a fixed trailer; CheckDataRefs accepts exactly the bundles the declarative rule set accepts; for accepted bundles a render with every declared param supplied triggers the lookup observer (hook) only for optional params a callee was not passed; both-param-styles rule on 3 concrete templates",
+    "bounds_thorough": "3 generated nodes; the other param-declaration configurations",
+    "outside": "bundles beyond the size bound; {msg} bodies; several files/namespaces (the rules are per template and callee lookup is by qualified name)",
+    "assumptions": ["c07Check (harness) is a declarative transcription of the rules in the property statement: references resolve to the innermost enclosing let defined earlier, a loop variable inside its loop, a declared param, or $ij; data=\"all\" forwards params (never lets) and counts as their use"],
+    "level_text": "Bounded model checking over programs: bundles are chosen through solver-visible choices over a grammar centred on binding structure (exhaustive within the size bound), compiled by the real parser, registry and checker, and compared with a declarative reference of the rules; the consequence for rendering is observed through a build-tagged hook in scope.lookup.",
+    "level_note": "Hook: soyhtml/verif_on.go (tag verif). Trusted: go/ssa, gosym, z3, the reference rule set.",
 }
